@@ -33,6 +33,30 @@ def walk(case):
         yield from rec([d], t)
 
 
+def help_wrappers(case):
+    """(path of the first destination, tree, further destinations) for every argument group the help shows, in order.
+    Under ALWAYS_MERGE the wrappers of one class (the generator gives them no members of dataclass type) are one group
+    that lists every destination in registration order; otherwise one group per dataclass wrapper."""
+    if case.get("mode") != "ALWAYS_MERGE":
+        return [(p, t, []) for p, t in walk(case)]
+    out, seen = [], {}
+    for d, t, _ in case["dests"]:
+        if t["cls"] in seen:
+            out[seen[t["cls"]]][2].append(d)
+        else:
+            seen[t["cls"]] = len(out)
+            out.append(([d], t, []))
+    return out
+
+
+def merged_text(v, n):
+    """the default of a field of a wrapper merged over n destinations, as `%(default)s` prints it"""
+    x = py_value(v)
+    if x is None:
+        return None
+    return str(x) if n == 1 else str([x] * n)
+
+
 def user_prefix(case, path):
     for d, _, p in case["dests"]:
         if d == path[0]:
